@@ -38,7 +38,7 @@ WRAPPER = ("local i = 1 local r = nil while i <= #ARGV do local n = tonumber(ARG
 # the client-facing handlers is C12's property.  Through scripts this check uses the commands on which both agree
 # (established by running the whole vocabulary once; see EXECUTOR_DIFFERS in the report), so that a disagreement
 # here is about WHICH database was used.
-SCRIPT_VOCAB = ["SET", "SET", "GET", "GET", "MSET", "SETNX", "APPEND", "STRLEN", "INCR", "DECR", "INCRBY", "DEL", "EXISTS", "TYPE",
+SCRIPT_VOCAB = ["SET", "SET", "GET", "GET", "MSET", "SETNX", "APPEND", "STRLEN", "DEL", "EXISTS", "TYPE",
                 "RPUSH", "LPUSH", "LPOP", "RPOP", "LLEN", "LINDEX", "SADD", "SREM", "SISMEMBER", "SCARD", "SMEMBERS",
                 "HSET", "HGET", "HDEL", "HLEN", "HEXISTS", "HKEYS", "HGETALL", "EXPIRE", "PERSIST", "RENAME",
                 "FLUSHDB", "DBSIZE", "KEYS", "DBSIZE", "KEYS"]
@@ -109,6 +109,15 @@ def norm(name, t):
         if name == "HGETALL" and len(t[1]) % 2 == 0:
             ps = sorted((t[1][i], t[1][i + 1]) for i in range(0, len(t[1]), 2))
             return ("a", tuple(x for p in ps for x in p))
+    return t
+
+
+def lossy(t):
+    """a bulk string that went through a script came out of String::from_utf8_lossy (C12's subject): applied to both sides"""
+    if t[0] in ("a", "m", "S"):
+        return (t[0], tuple(lossy(x) for x in t[1]))
+    if t[0] in ("b", "s") and len(t) > 1:
+        return (t[0], hx(unhx(t[1]).decode("utf-8", "replace").encode("utf-8")))
     return t
 
 
@@ -241,6 +250,8 @@ class Sess:
             raise InternalError("drv_dbs reset failed")
         self.blocked = {}                 # conn -> (db, key)
         self.multi = {i: None for i in self.cl}      # None or list of queued names
+        self.multi_scripts = {i: False for i in self.cl}
+        self.multi_ops = {i: [] for i in self.cl}    # the queued requests themselves
         self.sel = {i: 0 for i in self.cl}
         self.ops = []                     # executed operations of this history (replay material)
         self.steps = []
@@ -313,7 +324,7 @@ class Sess:
     def request(self, c, op):
         """returns a step record; updates the mirrors. op: plain or script."""
         step = {"op": op, "text": op_text(op), "pre_sel": self.sel[c], "in_multi": self.multi[c] is not None,
-                "queue": list(self.multi[c] or [])}
+                "queue": list(self.multi[c] or []), "queue_ops": list(self.multi_ops[c])}
         if c in self.blocked:
             step.update({"skipped": True, "agree": True, "dev": False})
             return step
@@ -349,6 +360,9 @@ class Sess:
         step.update({"line": line, "code": code, "spec": spec, "served": served, "spec_served": spec_served,
                      "same": same == "same", "accesses": acc})
         code_t, spec_t = parse_tree(code), parse_tree(spec)
+        if op["k"] == "script" or (isinstance(names, list) and self.multi_scripts[c]):
+            code_t, spec_t = lossy(code_t), lossy(spec_t)
+            impl = lossy(impl) if impl is not None else None
         if blocking and died is None:
             if code_t == ("noreply",):
                 args = [unhx(a) for a in op["args"]]
@@ -391,16 +405,19 @@ class Sess:
         step["delivered"] = " ;; ".join(delivered) if delivered else "."
         step["agree"] = agree
         step["dev"] = (not same_out(names, code_t, spec_t)) or same != "same" or served != spec_served
-        # mirrors
-        if agree and op["k"] == "plain" and code_t != ("e",) or (agree and op["k"] == "script"):
-            if name == "MULTI" and self.multi[c] is None:
+        # mirrors of the machine's connection state (deterministic in the request names)
+        if name == "MULTI":
+            if self.multi[c] is None:
                 self.multi[c] = []
-            elif name in ("EXEC", "DISCARD") and self.multi[c] is not None:
-                self.multi[c] = None
-            elif self.multi[c] is not None and code_t == ("s", hx(b"QUEUED")):
-                self.multi[c].append(names if isinstance(names, str) else "EXEC")
-        elif agree and name in ("EXEC", "DISCARD") and self.multi[c] is not None and code_t != ("e",):
+                self.multi_ops[c] = []
+                self.multi_scripts[c] = False
+        elif name in ("EXEC", "DISCARD"):
             self.multi[c] = None
+            self.multi_ops[c] = []
+        elif self.multi[c] is not None:
+            self.multi[c].append(names if isinstance(names, str) else "EXEC")
+            self.multi_ops[c].append(op)
+            self.multi_scripts[c] = self.multi_scripts[c] or op["k"] == "script"
         self.sel[c] = int(sel)
         if died:
             step["died"] = died
@@ -455,7 +472,10 @@ class Sess:
             r = self.ctl.cmd("SELECT", str(d))
             if r != ("s", b"OK"):
                 return ["dump-failed:SELECT %d %r" % (d, r)] * 16
-            out.append(KsSession.dump_impl(shim))
+            try:
+                out.append(KsSession.dump_impl(shim))
+            except (IndexError, KeyError, TypeError, AttributeError):
+                out.append("dump-failed: point reads of database %d are inconsistent with KEYS/TYPE" % d)
         return out
 
     def dump_model_all(self):
@@ -521,15 +541,7 @@ def shape(step, hist_ops):
     if op["k"] == "script" and not step["in_multi"]:
         scripts = scripts_of(step)
     elif op["k"] == "plain" and step.get("name") == "EXEC" and step["in_multi"]:
-        # the queue: the requests of this connection since its MULTI
-        q = []
-        for o in reversed(hist_ops[:-1]):
-            if o.get("c") != op["c"]:
-                continue
-            if o["k"] == "plain" and o["args"] and upname(o["args"][0]) == "MULTI":
-                break
-            q.append(o)
-        for o in q:
+        for o in step.get("queue_ops", []):
             if o["k"] == "script":
                 scripts.append((o["sha"], [upname(cmd[0]) for cmd in o["cmds"] if cmd]))
             elif o["k"] == "plain" and o["args"] and upname(o["args"][0]) == "SELECT":
@@ -556,9 +568,7 @@ class HistGen:
         r = self.r
         if valid is None:
             valid = r.chance(3, 4)
-        return (r.choice(SELECT_VALID) if valid else r.choice(SELECT_INVALID)).encode("utf-8", "surrogateescape") if False else \
-            (r.choice(SELECT_VALID) if valid else r.choice(SELECT_INVALID)).encode("latin-1", "replace") if False else \
-            self._enc(r.choice(SELECT_VALID) if valid else r.choice(SELECT_INVALID))
+        return self._enc(r.choice(SELECT_VALID) if valid else r.choice(SELECT_INVALID))
 
     @staticmethod
     def _enc(s):
@@ -578,21 +588,32 @@ class HistGen:
         return [name, self.select_arg(valid)]
 
     def script_cmds(self):
-        """1-3 calls, arguments valid UTF-8 (ARGV goes through from_utf8_lossy: C12's business)"""
+        """1-3 well-formed calls with valid UTF-8 arguments: malformed options/arity and binary data take different
+        routes through executor.rs (C12's subject); wrong-type targets and missing keys are included"""
         r = self.r
+        g = self.gs
         out = []
         for _ in range(r.choice([1, 1, 1, 2, 3])):
-            for _try in range(20):
-                cmd = self.gs.command()
-                cmd[0] = cmd[0].upper()
+            for _try in range(30):
+                name = r.choice(SCRIPT_VOCAB)
+                if name == "SET":
+                    cmd = [b"SET", g.key(), g.val()] + (r.choice([[], [], [b"EX", r.choice(ksgen.TTLS)], [b"NX"], [b"XX"]]))
+                elif name == "EXPIRE":
+                    cmd = [b"EXPIRE", g.key(), r.choice(ksgen.TTLS)]
+                elif name == "LINDEX":
+                    cmd = [b"LINDEX", g.key(), str(r.choice([0, 1, -1, 2, -2, 5])).encode()]
+                elif name == "KEYS":
+                    cmd = [b"KEYS", r.choice([b"*", b"k*", b"?", b"*1", b"miss", b"[kl]*"])]
+                else:
+                    cmd = [name.encode()] + getattr(g, "g_" + name.lower())()
                 try:
                     for a in cmd:
                         a.decode("utf-8")
-                    if any(b"\x00" in a for a in cmd):
-                        continue
-                    break
                 except UnicodeDecodeError:
                     continue
+                if any(b"\x00" in a for a in cmd):
+                    continue
+                break
             else:
                 cmd = [b"GET", b"k1"]
             out.append(cmd)
@@ -961,11 +982,10 @@ def main(tier, seed):
     try:
         # corpus first: witnesses of the listed findings (must still deviate) and clean histories (must pass)
         for name, ops in corpus().items():
-            before = len(run.new_failures) + len(run.disagreements)
-            seen_before = set(run.known_seen)
+            dev_before = run.dev_steps
             run.run_ops(ops)
             rep.count("corpus." + name)
-            if name.startswith("clean") and run.dev_steps and len(run.new_failures) + len(run.disagreements) == before and set(run.known_seen) != seen_before:
+            if name.startswith("clean") and run.dev_steps != dev_before:
                 run.disagreements.append({"family": FAMILY, "ops": ops, "why": "clean corpus history %s deviates from the Spec" % name})
         corpus_known = set(run.known_seen)
         n_hist = 260 if tier == "quick" else 6000
